@@ -238,6 +238,29 @@ def triggers_of(program: dict, facts: dict[str, dict]) -> dict[str, list[str]]:
                     if all(not _has_col(v) for v in vals) and any(_has_col(b[0]) for b in d["case"]):
                         found63.append(1)
             _walk(st, _c63)
+            if not found63:
+                # the general form: the condition of a case expression reads a column that an ancestor statement (or this one)
+                # defined by a window / aggregate function, whatever the values are - the case expression is typed by its values alone
+                from .campaign import ancestors as _anc63
+
+                by63 = {x["id"]: x for x in program["stmts"]}
+                wnames = set()
+                for a in list(_anc63(program, st["src"]) if st.get("src") else []) + ([st["src"]] if st.get("src") else []):
+                    sa = by63.get(a)
+                    if sa is not None and sa["op"] in ("mutate", "summarize"):
+                        for cdef in sa.get("cols", []):
+                            if fn_ops(dict(cols=[cdef])) & (AGG_OPS | WIN_OPS):
+                                wnames.add(cdef[0])
+
+                def _c63b(d):
+                    if "case" in d:
+                        for b in d["case"]:
+                            names = []
+                            _walk(b[0], lambda x: names.append(x["c"]) if "c" in x else (names.append(x["col"][1]) if "col" in x else None))
+                            if set(names) & wnames:
+                                found63.append(1)
+                if wnames:
+                    _walk(st, _c63b)
             if found63:
                 hit("D63", sid)
         if op == "mutate" and (ops & {"shift", "row_number"}):
